@@ -25,8 +25,16 @@ thread_local! {
     /// gap at k (a graph after a removal: ids are not contiguous). The harness keeps working with logical ids 0..n.
     static GAP: std::cell::Cell<Option<usize>> = const { std::cell::Cell::new(None) };
 }
+thread_local! {
+    /// edge kinds of the generated graphs: 0 = all Hadamard (default), 1 = all plain, 2 = alternating. Cut ranks only depend
+    /// on adjacency, so every result must be the same whatever the kinds are.
+    static EMODE: std::cell::Cell<u8> = const { std::cell::Cell::new(0) };
+}
 fn gap_json() -> Value {
     json!(GAP.with(|g| g.get()))
+}
+fn emode_json() -> Value {
+    json!(EMODE.with(|g| g.get()))
 }
 fn actual(i: usize) -> usize {
     match GAP.with(|g| g.get()) {
@@ -51,8 +59,10 @@ fn make_graph(n: usize, edges: &[(usize, usize)]) -> Graph {
     if let Some(k) = gap {
         g.remove_vertex(k);
     }
-    for &(a, b) in edges {
-        g.add_edge_with_type(actual(a), actual(b), EType::H);
+    let emode = EMODE.with(|g| g.get());
+    for (k, &(a, b)) in edges.iter().enumerate() {
+        let et = if emode == 1 || (emode == 2 && k % 2 == 0) { EType::N } else { EType::H };
+        g.add_edge_with_type(actual(a), actual(b), et);
     }
     g
 }
@@ -289,7 +299,7 @@ fn apply_move(t: &mut DecompTree, mv: &str, g: &Graph) {
 const MOVES: [&str; 5] = ["leaf_swap", "local_swap", "subtree_move", "query_width", "query_score"];
 
 fn witness(n: usize, edges: &[(usize, usize)], init: &[u32], path: &[Step]) -> Value {
-    json!({"kind": "moves", "n": n, "gap": gap_json(), "edges": edges, "init_script": init, "path": path.iter().map(|s| json!([s.mv, s.script])).collect::<Vec<_>>()})
+    json!({"kind": "moves", "n": n, "gap": gap_json(), "emode": emode_json(), "edges": edges, "init_script": init, "path": path.iter().map(|s| json!([s.mv, s.script])).collect::<Vec<_>>()})
 }
 
 /// closure of the move system on one graph; returns (states, complete)
@@ -410,7 +420,7 @@ fn explore_annealer(st: &mut Stats, n: usize, edges: &[(usize, usize)], iteratio
     for (script, end) in results {
         st.inc("evaluations");
         st.inc("transitions");
-        let w = || json!({"kind": "annealer", "n": n, "gap": gap_json(), "edges": es, "iterations": iterations, "adaptive": adaptive, "temp": temp, "script": script});
+        let w = || json!({"kind": "annealer", "n": n, "gap": gap_json(), "emode": emode_json(), "edges": es, "iterations": iterations, "adaptive": adaptive, "temp": temp, "script": script});
         let cls = format!("adaptive={}|{}", adaptive, if es.is_empty() { "edgeless" } else { "with-edges" });
         match end {
             RunEnd::DrawLimit => st.inc("pruned_retry_rounds"),
@@ -469,7 +479,7 @@ fn explore_annealer_from_all(st: &mut Stats, n: usize, edges: &[(usize, usize)],
             for (script, end) in results {
                 st.inc("evaluations");
                 st.inc("transitions");
-                let w = || json!({"kind": "annealer-from", "n": n, "gap": gap_json(), "edges": es, "init_script": init_script, "iterations": iterations, "adaptive": adaptive, "script": script});
+                let w = || json!({"kind": "annealer-from", "n": n, "gap": gap_json(), "emode": emode_json(), "edges": es, "init_script": init_script, "iterations": iterations, "adaptive": adaptive, "script": script});
                 match end {
                     RunEnd::DrawLimit => st.inc("pruned_retry_rounds"),
                     RunEnd::Panic(p) => st.violation(Violation { sig: format!("annealer-from|panic|{}", site_of(&p)), detail: p, witness: w() }),
@@ -649,7 +659,7 @@ fn explore_annealer_disagreement(st: &mut Stats, n: usize, edges: &[(usize, usiz
             for (script, end) in results {
                 st.inc("evaluations");
                 st.inc("transitions");
-                let w = || json!({"kind": "annealer-tree", "n": n, "gap": gap_json(), "edges": es, "tree_index": ti, "iterations": iterations, "adaptive": adaptive, "script": script});
+                let w = || json!({"kind": "annealer-tree", "n": n, "gap": gap_json(), "emode": emode_json(), "edges": es, "tree_index": ti, "iterations": iterations, "adaptive": adaptive, "script": script});
                 match end {
                     RunEnd::DrawLimit => st.inc("pruned_retry_rounds"),
                     RunEnd::Panic(p) => st.violation(Violation { sig: format!("annealer-from|panic|{}", site_of(&p)), detail: p, witness: w() }),
@@ -705,31 +715,38 @@ pub fn run(rep: &mut Report) {
     // the same closure on graphs whose vertex ids are not contiguous (a vertex was removed: gap at id 0 / at id 1)
     {
         let t0 = Instant::now();
-        let mut jobs: Vec<(usize, u32, usize)> = vec![];
+        // (vertices, graph, gap position or 9 = none, edge kinds)
+        let mut jobs: Vec<(usize, u32, usize, u8)> = vec![];
         for n in 2..=(if quick { 3usize } else { 4 }) {
             let np = all_pairs(n).len();
             for m in (0..(1u32 << np)).filter(|&m| canon_mask(n, m) == m) {
                 for gap in [0usize, 1] {
-                    jobs.push((n, m, gap));
+                    jobs.push((n, m, gap, 0));
+                }
+                if m != 0 {
+                    jobs.push((n, m, 9, 1));
+                    jobs.push((n, m, 1, 2));
                 }
             }
         }
         let results: Vec<(Stats, bool)> = jobs
             .par_iter()
-            .map(|&(n, m, gap)| {
-                GAP.with(|g| g.set(Some(gap)));
+            .map(|&(n, m, gap, emode)| {
+                GAP.with(|g| g.set(if gap == 9 { None } else { Some(gap) }));
+                EMODE.with(|g| g.set(emode));
                 let (es, _) = graph_from_mask(n, m);
                 let mut st = Stats::default();
                 let c = explore_graph(&mut st, n, &es, 400_000, 10_000);
                 // and the annealer on the same graph
                 explore_annealer(&mut st, n, &es, if n >= 4 { 1 } else { 2 }, true, 5.0);
                 GAP.with(|g| g.set(None));
+                EMODE.with(|g| g.set(0));
                 (st, c)
             })
             .collect();
         let complete = results.iter().all(|r| r.1);
         let stats = results.into_iter().map(|r| r.0).fold(Stats::default(), Stats::merge);
-        rep.absorb("closure on graphs with an id gap", &format!("{} (graph class, gap position) pairs on 2..{} vertices: the graph is built with one extra vertex that is removed again (ids 1..n or 0,2..n), then the same closure over all moves and a short annealer run", jobs.len(), if quick { 3 } else { 4 }), complete, None, t0, stats);
+        rep.absorb("closure on graphs with an id gap / other edge kinds", &format!("{} (graph class, gap position, edge kinds) triples on 2..{} vertices: the graph is built with one extra vertex that is removed again (ids 1..n or 0,2..n) and / or with plain instead of Hadamard edges (all, alternating), then the same closure over all moves and a short annealer run", jobs.len(), if quick { 3 } else { 4 }), complete, None, t0, stats);
     }
     // 5 (and 6) vertices: bounded depth
     for (n, depth, cap) in if quick { vec![(5usize, 2usize, 60_000usize)] } else { vec![(5, 3, 400_000), (6, 2, 300_000)] } {
@@ -826,6 +843,7 @@ pub fn run(rep: &mut Report) {
 
 pub fn replay(w: &Value) -> Option<Violation> {
     GAP.with(|g| g.set(w["gap"].as_u64().map(|x| x as usize)));
+    EMODE.with(|g| g.set(w["emode"].as_u64().unwrap_or(0) as u8));
     let n = w["n"].as_u64()? as usize;
     let edges: Vec<(usize, usize)> = w["edges"].as_array()?.iter().map(|e| (e[0].as_u64().unwrap() as usize, e[1].as_u64().unwrap() as usize)).collect();
     let g = make_graph(n, &edges);
